@@ -1033,6 +1033,81 @@ def slice_bounds_evaluated_once():
     return plain != probed or seen != [1]
 
 
+def probe_silenced_when_an_earlier_generator_finishes():
+    """C02/C06 (the recorded non-LIFO frame-exit mechanism, seen from another property): a probe activated while a probed generator is
+    suspended stops receiving events -- although it is still active -- once that generator finishes."""
+    from ptera import global_probe
+
+    def gen2(n):
+        for i in range(n):
+            x = i * 2
+            yield x
+
+    def f3(a):
+        y = a + 1
+        return y
+
+    pa = global_probe("gen2 > x", env={"gen2": gen2})
+    pa.accum()
+    it = gen2(2)
+    next(it)  # started under probe A, suspended inside its frame
+    pb = global_probe("f3 > y", env={"f3": f3})
+    rb = pb["y"].accum()
+    f3(1)
+    list(it)  # the generator finishes: its frame resets the handlers to those of before probe B
+    f3(2)
+    pb.deactivate()
+    pa.deactivate()
+    print("events of the probe that was active all along:", rb)
+    return rb != [2, 3]
+
+
+def suspended_generator_in_a_local_outlives_its_frame():
+    """C09 (same mechanism): an instrumented function returns while a generator it created is still suspended in one of its locals; the
+    generator is finalised after the function's own frame ended and re-installs that frame's inner handlers for the surrounding code."""
+    from ptera import Overlay
+
+    @tooled
+    def plain(v):
+        x = v + 1
+        return x
+
+    @tooled
+    def gen3():
+        a = 1
+        yield a
+        b = 2
+        yield b
+
+    @tooled
+    def first():
+        it = gen3()
+        head = next(it)
+        return head  # `it` is still suspended when first() returns
+
+    ov = Overlay()
+    t = ov.tap(ptera.select("first > plain > x", env={"first": first, "plain": plain}))
+    with ov:
+        first()
+        plain(100)
+    plain(1000)
+    print("events for plain() called outside of first():", t)
+    return t != []
+
+
+def generator_shell_is_transparent():
+    """C09/C05/C01/C06 (bounded): replay/c09_generator_shell.py -- `yield from proceed.yielding(frame, v)` / `proceed.delegating(frame, it)`
+    behave like `yield v` / `yield from it` under every sequence of <= 6 consumer operations {next, send, throw, close}, the consumer's
+    handlers are current whenever the consumer runs and the activation's own whenever the generator's code runs."""
+    import os
+    import subprocess
+
+    path = os.path.join(os.path.dirname(os.path.dirname(os.path.abspath(__file__))), "c09_generator_shell.py")
+    r = subprocess.run([sys.executable, path, "6"], capture_output=True, text=True, timeout=600)
+    print(r.stdout.strip()[-600:], r.stderr.strip()[-300:])
+    return r.returncode != 0
+
+
 # case -> properties (the scenario corpus of DESIGN 2.6: every case is replayed natively by the quick check of its properties)
 CASES = {
     "tuple_unpack_generator": ["C01"], "tuple_unpack_dict": ["C01"], "starred_target": ["C01"], "subscript_index_twice": ["C01"],
@@ -1050,7 +1125,8 @@ CASES = {
     "completion_error_leaves_probe_active": ["C17", "C05"], "overlay_on_tooled_function_keeps_its_events": ["C05"], "deactivation_inside_a_call_is_undone_at_its_exit": ["C05"],
     "probe_activated_inside_a_call_is_dropped": ["C05"],
     "same_name_constrained_in_two_frames": ["C12"], "bound_method_subselector_drops_record": ["C07"],
-    "private_names_in_method": ["C01"], "slice_bounds_evaluated_once": ["C01", "C02"], "match_statement_under_tooling": ["C01", "C10", "C02"], "provenance_follows_python_scoping": ["C10"], "augmented_attribute_store_is_a_binding": ["C04", "C02"],
+    "private_names_in_method": ["C01"], "generator_shell_is_transparent": ["C09", "C05", "C01", "C06", "C02", "C07"], "probe_silenced_when_an_earlier_generator_finishes": ["C02", "C06"],
+    "suspended_generator_in_a_local_outlives_its_frame": ["C09"], "slice_bounds_evaluated_once": ["C01", "C02"], "match_statement_under_tooling": ["C01", "C10", "C02"], "provenance_follows_python_scoping": ["C10"], "augmented_attribute_store_is_a_binding": ["C04", "C02"],
     "stale_generator_answer_is_not_remembered": ["C05", "C07", "C02", "C09"],
     "hidden_temporaries_keep_generator_alive": ["C09"], "same_name_at_two_placements": ["C14"],
 }
